@@ -173,10 +173,13 @@ def coef_to_G(v):
         v = float(v)
         if v != v or v in (float('inf'), float('-inf')):
             raise EncodeError('non-finite float')
-        f = Fraction(v).limit_denominator(10 ** 5)
+        # A float is logged as a fraction only if it IS that fraction to double precision: denominators up to
+        # 10^4 and relative distance 1e-11 (an arbitrary real passes this test with probability ~1e-3; a
+        # looser test would accept every float, since fractions with denominator <= Q are 1/Q^2-dense).
+        f = Fraction(v).limit_denominator(10 ** 4)
         dist = abs(float(f) - v)
-        if dist > 1e-7 * max(1.0, abs(v)):
-            raise EncodeError('float result is not within 1e-7 of a fraction with denominator <= 10^5')
+        if dist > 1e-11 * max(1.0, abs(v)):
+            raise EncodeError('float result is not (to double precision) a fraction with denominator <= 10^4')
         FLOAT_DIST[0] = max(FLOAT_DIST[0], dist)
         return G.const(f)
     if hasattr(v, 'is_Rational') and getattr(v, 'is_Rational', False):   # sympy Integer/Rational
